@@ -142,6 +142,14 @@ func EnumFileSets(tier string) (sets []FileSet, rule string, snapshotCases int) 
 				mc.Fatal("%v", err)
 			}
 			fs := FileSet{Files: ref.Case{Set: set.Name, Interleave: il, Link: "eth", Cuts: cuts}, Snap: true}
+			if len(cuts) == 1 {
+				for _, b := range [][][]int{{{0}, {1}}, {{1}, {0}}} {
+					fs.Hists = append(fs.Hists, History{Batches: b}, History{Batches: b, Restart: []bool{true}}, History{Batches: b, DropSnap: []bool{true}})
+				}
+				snapshotCases += len(fs.Hists)
+				sets = append(sets, fs)
+				continue
+			}
 			for _, b := range [][][]int{
 				{{0}, {1}, {2}}, {{0, 1}, {2}}, {{0}, {1, 2}}, {{1}, {0}, {2}}, {{0}, {2}, {1}}, {{2}, {1}, {0}}, {{1}, {2}, {0}},
 			} {
@@ -165,7 +173,7 @@ func EnumFileSets(tier string) (sets []FileSet, rule string, snapshotCases int) 
 		// one snapshot set in the quick tier: a packet of the observed flow carries exactly the
 		// timestamp of the snapshot and the flow continues in the next capture
 		for _, set := range ref.Sets() {
-			if set.Name != "snap-trigger" && set.Name != "snap-longlived" {
+			if set.Name != "snap-trigger" && set.Name != "snap-longlived" && set.Name != "snap-boundary-last" {
 				continue
 			}
 			cuts, err := ref.SnapshotCuts(set)
@@ -173,6 +181,12 @@ func EnumFileSets(tier string) (sets []FileSet, rule string, snapshotCases int) 
 				mc.Fatal("%v", err)
 			}
 			fs := FileSet{Files: ref.Case{Set: set.Name, Interleave: set.Interleaves[0], Link: "eth", Cuts: cuts}, Snap: true}
+			if len(cuts) == 1 {
+				fs.Hists = append(fs.Hists, History{Batches: [][]int{{0}, {1}}}, History{Batches: [][]int{{0}, {1}}, Restart: []bool{true}})
+				snapshotCases += len(fs.Hists)
+				sets = append(sets, fs)
+				continue
+			}
 			fs.Hists = append(fs.Hists, History{Batches: [][]int{{0, 1}, {2}}}, History{Batches: [][]int{{0}, {1}, {2}}, Restart: []bool{true, true}})
 			snapshotCases += len(fs.Hists)
 			sets = append(sets, fs)
